@@ -11,7 +11,8 @@
 2. spec -> code: TLC prints the same spaces as vectors; harness bin `httpresp` replays them on the real code:
    Vec<u8>::from(Response) class-wise against RenderResp, the real bytes parsed back by the real parser,
    Response::from_stream over a scripted reader under split plans and 3..5 byte mappings of the body symbols,
-   SetCookie for all 2^7 attribute subsets, the StatusCode tables, and Client::get(..).with_redirects(..).send()
+   SetCookie for all 2^7 attribute subsets and boundary values per attribute (Max-Age around 2^24, 2^31, 2^32, 2^53, u64::MAX
+   with sub-second parts, '=' in values, spaces / non-ASCII in Domain and Path, 4 KiB names and values), the StatusCode tables, and Client::get(..).with_redirects(..).send()
    against a scripted server on 127.0.0.1:80 / 127.0.0.2:80 playing every chain TLC generated.
    A family with 30..100 header fields of which 2..10 are Set-Cookie (with_cookie) and 2..10 share a custom name
    checks the order of same-named fields after serialising and after parsing back (a sort that is not stable
@@ -34,7 +35,7 @@ RESP_ACTIONS = ["Ser_StatusLine", "Ser_Header", "Ser_Blank", "Ser_Body", "Par_St
 CLIENT_ACTIONS = ["Cl_Send", "Srv_Respond", "Cl_Read", "Cl_Redirect", "Cl_Return"]
 RESP_BUGS = [("dev_CrlfAfterBody", "SerValid"), ("bug_SplitAllSpaces", None), ("bug_DecimalChunkSize", None),
              ("bug_NoCrlfAfterChunk", None), ("bug_SingleRead", None), ("bug_PhraseTypo", "SerValid"), ("bug_WrongCode", "SerValid"),
-             ("bug_NoBlankLine", "SerValid"), ("bug_TeKeptAfterDecode", "ParCorrect"), ("bug_UnstableSameNameOrder", "SerValid")]
+             ("bug_NoBlankLine", "SerValid"), ("bug_TeKeptAfterDecode", "ParCorrect"), ("bug_UnstableSameNameOrder", "SerValid"), ("bug_MaxAgeThroughF32", "CookieInv")]
 CLIENT_BUGS = ["bug_Follow303", "bug_StopAfterFirst", "bug_RelToFirstHost", "bug_AbsKeepsHost", "bug_Skip307",
                "reach_MaxChain", "reach_HostSwitch"]
 
@@ -86,7 +87,7 @@ def _run(tier, replay):
 
     # ---- all TLC work that does not depend on the harness runs concurrently, at most 8 TLC workers in total ----
     # quick: the open deviation and a representative subset of the plausible bugs; thorough: all of them
-    rb = RESP_BUGS if thorough else [x for x in RESP_BUGS if x[0] in ("dev_CrlfAfterBody", "bug_DecimalChunkSize", "bug_SplitAllSpaces", "bug_UnstableSameNameOrder")]
+    rb = RESP_BUGS if thorough else [x for x in RESP_BUGS if x[0] in ("dev_CrlfAfterBody", "bug_DecimalChunkSize", "bug_SplitAllSpaces", "bug_UnstableSameNameOrder", "bug_MaxAgeThroughF32")]
     cb = CLIENT_BUGS if thorough else ["bug_Follow303", "bug_StopAfterFirst", "reach_MaxChain"]
     jobs = [("mc:A", lambda: tlc("MC_HttpResp.tla", "MC_HttpResp_%sA.cfg" % T, 2 if thorough else 1, coverage=True)),
             ("mc:B", lambda: tlc("MC_HttpResp.tla", "MC_HttpResp_%sB.cfg" % T, 2 if thorough else 1, coverage=True)),
@@ -301,8 +302,8 @@ def selftest(hbin, vectors):
     sv = copy.deepcopy(next(x for x in vectors if x["k"] == "s" and x["r"]["headers"]))
     sv["r"]["headers"][0]["v"] += "x"          # the harness builds the response from r; the accepted lines are unchanged,
     sv["lines"] = [l + "!" for l in sv["lines"]]  # so a changed status line expectation must be noticed
-    cv = copy.deepcopy(next(x for x in vectors if x["k"] == "c" and len(x["avs"]) >= 2))
-    cv["avs"] = cv["avs"][1:]
+    cv = copy.deepcopy(next(x for x in vectors if x["k"] == "c" and len(x["attrs"]) >= 2))
+    cv["avsets"] = [a[1:] for a in cv["avsets"]]
     out = {}
     for name, v in (("parse", pv), ("ser", sv), ("cookie", cv)):
         p = run_bin(hbin, ["replay", "1"], stdin_data=json.dumps(v) + "\n")
